@@ -865,10 +865,10 @@ Proof.
   intros i Hi. apply Z.mod_pos_bound. assumption.
 Qed.
 
-Lemma rotate_list_1d : forall n l, rotate_uses_axis0 = true \/ rshape (VL l) = None \/ (exists k, rshape (VL l) = Some [k]) ->
-  m_rotate (VI n) (VL l) = Ok (VL (s_rotate VU n l)).
+Lemma rotate_list_1d : forall flag n l, flag = true \/ rshape (VL l) = None \/ (exists k, rshape (VL l) = Some [k]) ->
+  m_rotate_gen flag (VI n) (VL l) = Ok (VL (s_rotate VU n l)).
 Proof.
-  intros n l H. unfold m_rotate.
+  intros flag n l H. unfold m_rotate_gen.
   assert (Hroll : roll n l = s_rotate VU n l).
   { unfold roll. destruct l as [|x l']; [reflexivity|]. apply (roll_spec VU n (x :: l')). discriminate. }
   destruct (n =? 0) eqn:E0.
@@ -877,8 +877,8 @@ Proof.
     cbn [Z.to_nat]. rewrite Nat.sub_0_r. rewrite skipn_all, firstn_all. reflexivity.
   - destruct H as [H|[H|[k H]]].
     + rewrite H. rewrite Hroll. reflexivity.
-    + destruct rotate_uses_axis0; rewrite ?H, Hroll; reflexivity.
-    + destruct rotate_uses_axis0; [rewrite Hroll; reflexivity|]. rewrite H.
+    + destruct flag; rewrite ?H, Hroll; reflexivity.
+    + destruct flag; [rewrite Hroll; reflexivity|]. rewrite H.
       destruct (rshape_list _ _ H) as [s [E Fs]]. inversion E. subst s k.
       unfold np_flat, npdepth. rewrite H. cbn [List.length flat build prodn].
       assert (Hf : flat_map (fun v : val => [v]) l = l) by (clear; induction l as [|y l' IHl]; [reflexivity|cbn; f_equal; apply IHl]).
@@ -899,9 +899,9 @@ Proof.
         exfalso. assert (X : List.length (skipn i r) = O) by (rewrite Es; reflexivity). rewrite skipn_length in X. lia.
 Qed.
 
-Lemma rotate_string_spec : forall n s, m_rotate (VI n) (VS s) = Ok (VS (s_rotate 0 n s)).
+Lemma rotate_string_spec : forall flag n s, m_rotate_gen flag (VI n) (VS s) = Ok (VS (s_rotate 0 n s)).
 Proof.
-  intros n s. unfold m_rotate.
+  intros flag n s. unfold m_rotate_gen.
   assert (Hroll : roll n (chars s) = s_rotate VU n (chars s)).
   { unfold roll. destruct (chars s) as [|x l'] eqn:Ec; [reflexivity|]. apply (roll_spec VU n (x :: l')). discriminate. }
   assert (Hj : joined (s_rotate VU n (chars s)) = Ok (VS (s_rotate 0 n s))).
@@ -1091,3 +1091,175 @@ Qed.
 
 Lemma kind_floor_int : forall a r, sc_floor a = Ok r -> exists z, r = VI z.
 Proof. intros a r H. destruct a; cbn in H; try discriminate; inversion H; eexists; reflexivity. Qed.
+
+(* ------------------------------------------------------------------ the dispatch tables the model was written against *)
+Local Open Scope string_scope.
+Definition expected_monad_table : list (list Z * string) :=
+  [([64]%Z, "eval_monad_atom");
+   ([38]%Z, "eval_monad_expand_where");
+   ([42]%Z, "eval_monad_first");
+   ([43]%Z, "eval_monad_transpose");
+   ([729]%Z, "eval_monad_track");
+   ([124]%Z, "eval_monad_reverse");
+   ([44]%Z, "eval_monad_list");
+   ([58; 35]%Z, "eval_monad_char");
+   ([33]%Z, "eval_monad_enumerate");
+   ([95]%Z, "eval_monad_floor");
+   ([36]%Z, "eval_monad_format");
+   ([60]%Z, "eval_monad_grade_up");
+   ([62]%Z, "eval_monad_grade_down");
+   ([61]%Z, "eval_monad_groupby");
+   ([45]%Z, "eval_monad_negate");
+   ([126]%Z, "eval_monad_not");
+   ([63]%Z, "eval_monad_range");
+   ([37]%Z, "eval_monad_reciprocal");
+   ([35]%Z, "eval_monad_size");
+   ([58; 95]%Z, "eval_monad_undefined");
+   ([94]%Z, "eval_monad_shape");
+   ([8711]%Z, "eval_monad_grad")].
+Definition expected_dyad_table : list (list Z * string) :=
+  [([58; 45]%Z, "eval_dyad_amend_in_depth");
+   ([95]%Z, "eval_dyad_drop");
+   ([58; 64]%Z, "eval_dyad_index_in_depth");
+   ([43]%Z, "eval_dyad_add");
+   ([124]%Z, "eval_dyad_maximum");
+   ([38]%Z, "eval_dyad_minimum");
+   ([33]%Z, "eval_dyad_remainder");
+   ([37]%Z, "eval_dyad_divide");
+   ([42]%Z, "eval_dyad_multiply");
+   ([45]%Z, "eval_dyad_subtract");
+   ([58; 61]%Z, "eval_dyad_amend");
+   ([58; 95]%Z, "eval_dyad_cut");
+   ([61]%Z, "eval_dyad_equal");
+   ([63]%Z, "eval_dyad_find");
+   ([58; 36]%Z, "eval_dyad_form");
+   ([36]%Z, "eval_dyad_format2");
+   ([58; 37]%Z, "eval_dyad_integer_divide");
+   ([44]%Z, "eval_dyad_join");
+   ([60]%Z, "eval_dyad_less");
+   ([126]%Z, "eval_dyad_match");
+   ([62]%Z, "eval_dyad_more");
+   ([94]%Z, "eval_dyad_power");
+   ([58; 94]%Z, "eval_dyad_reshape");
+   ([58; 43]%Z, "eval_dyad_rotate");
+   ([58; 35]%Z, "eval_dyad_split");
+   ([35]%Z, "eval_dyad_take");
+   ([64]%Z, "eval_dyad_at_index");
+   ([58; 58]%Z, "eval_dyad_define");
+   ([8711]%Z, "eval_dyad_grad");
+   ([8706]%Z, "eval_dyad_jacobian");
+   ([58; 62]%Z, "eval_dyad_autograd")].
+Local Close Scope string_scope.
+
+Definition entry_eqb (x y : list Z * string) : bool := zs_eqb (fst x) (fst y) && String.eqb (snd x) (snd y).
+Definition table_eqb := list_eqb entry_eqb.
+Definition all_present (names : list string) (t : list (list Z * string)) : bool :=
+  forallb (fun f => existsb (fun e => String.eqb f (snd e)) t) names.
+Definition check_tables : bool :=
+  tables_shape_ok && table_eqb monad_table expected_monad_table && table_eqb dyad_table expected_dyad_table &&
+  all_present modelled_monads monad_table && all_present modelled_dyads dyad_table.
+
+Lemma tables_checked : check_tables = true.
+Proof. vm_compute. reflexivity. Qed.
+
+(* ------------------------------------------------------------------ structural verbs at the level of the dispatcher *)
+Local Open Scope string_scope.
+Local Open Scope Z_scope.
+
+Lemma m_dyad_take : forall a b, canonical a && canonical b = true -> m_dyad "eval_dyad_take" a b = m_take a b.
+Proof. intros a b H. unfold m_dyad. rewrite H. reflexivity. Qed.
+Lemma m_dyad_drop : forall a b, canonical a && canonical b = true -> m_dyad "eval_dyad_drop" a b = m_drop a b.
+Proof. intros a b H. unfold m_dyad. rewrite H. reflexivity. Qed.
+Lemma m_dyad_rotate : forall a b, canonical a && canonical b = true -> m_dyad "eval_dyad_rotate" a b = m_rotate a b.
+Proof. intros a b H. unfold m_dyad. rewrite H. reflexivity. Qed.
+Lemma m_monad_reverse : forall a, canonical a = true -> m_monad "eval_monad_reverse" a = m_reverse a.
+Proof. intros a H. unfold m_monad. rewrite H. reflexivity. Qed.
+
+Lemma take_holds : forall n b, canonical b = true ->
+  dom_dyad "eval_dyad_take" (VI n) b = true -> (npdepth b <= 1)%nat ->
+  m_dyad "eval_dyad_take" (VI n) b = s_dyad "eval_dyad_take" (VI n) b.
+Proof.
+  intros n b Hc Hd H1. rewrite m_dyad_take by exact Hc.
+  destruct b as [z|r|c|s|s|l|]; try (cbn in Hd; discriminate).
+  - rewrite take_string_spec. reflexivity.
+  - rewrite take_list_spec by exact H1. reflexivity.
+Qed.
+
+Lemma drop_holds : forall a b, canonical a && canonical b = true ->
+  dom_dyad "eval_dyad_drop" a b = true ->
+  m_dyad "eval_dyad_drop" a b = s_dyad "eval_dyad_drop" a b.
+Proof.
+  intros a b Hc Hd. rewrite m_dyad_drop by exact Hc.
+  destruct a as [n| | | | | |]; try (cbn in Hd; discriminate).
+  destruct b as [z|r|c|s|s|l|]; try (cbn in Hd; discriminate).
+  - change (s_dyad "eval_dyad_drop" (VI n) (VS s)) with (Ok (VS (s_drop 0 n s))).
+    unfold m_drop, s_drop. f_equal. f_equal. destruct (0 <=? n) eqn:E.
+    + apply Z.leb_le in E. apply drop_front. exact E.
+    + apply Z.leb_gt in E. apply drop_back. exact E.
+  - change (s_dyad "eval_dyad_drop" (VI n) (VL l)) with (Ok (VL (s_drop VU n l))).
+    unfold m_drop, s_drop, py_tail, py_but_last. f_equal. f_equal. destruct (0 <=? n) eqn:E.
+    + apply Z.leb_le in E. apply drop_front. exact E.
+    + apply Z.leb_gt in E. replace (zlen l - - n) with (zlen l + n) by lia. apply drop_back. exact E.
+Qed.
+
+Lemma rotate_holds : rotate_uses_axis0 = true -> forall a b, canonical a && canonical b = true ->
+  dom_dyad "eval_dyad_rotate" a b = true ->
+  m_dyad "eval_dyad_rotate" a b = s_dyad "eval_dyad_rotate" a b.
+Proof.
+  intros Hf a b Hc Hd. rewrite m_dyad_rotate by exact Hc.
+  destruct a as [n| | | | | |]; try (cbn in Hd; discriminate Hd).
+  destruct b as [z|r|c|s|s|l|]; try (cbn in Hd; discriminate Hd).
+  - unfold m_rotate. rewrite rotate_string_spec. reflexivity.
+  - unfold m_rotate. rewrite rotate_list_1d by (left; exact Hf). reflexivity.
+Qed.
+
+Lemma reverse_holds : reverse_guards_atoms = true -> forall a, canonical a = true ->
+  m_monad "eval_monad_reverse" a = s_monad "eval_monad_reverse" a.
+Proof.
+  intros Hf a Hc. rewrite m_monad_reverse by exact Hc. unfold m_reverse. rewrite Hf. unfold m_reverse_gen.
+  destruct a as [z|r|c|s|s|l|]; try reflexivity.
+  - change (s_monad "eval_monad_reverse" (VS s)) with (Ok (VS (s_reverse 0 s))). rewrite (reverse_spec 0). reflexivity.
+  - change (s_monad "eval_monad_reverse" (VL l)) with (Ok (VL (s_reverse VU l))). rewrite (reverse_spec VU). reflexivity.
+Qed.
+
+(* ------------------------------------------------------------------ known-finding classes: witnesses *)
+Definition res_eqb (x y : res) : bool :=
+  match x, y with
+  | Ok v, Ok w => val_eqb v w
+  | Err, Err | Unmod, Unmod | NoFuel, NoFuel => true
+  | _, _ => false
+  end.
+
+Definition refutes_d (cls f : string) (a b : val) : bool :=
+  dom_dyad f a b && String.eqb (k_dyad f a b) cls && negb (res_eqb (m_dyad f (norm a) (norm b)) (s_dyad f a b)).
+Definition refutes_m (cls f : string) (a : val) : bool :=
+  dom_monad f a && String.eqb (k_monad f a) cls && negb (res_eqb (m_monad f (norm a)) (s_monad f a)).
+
+Definition r25 : val := VR (real_of_bits 4612811918334230528).   (* 2.5 *)
+Definition m22 : val := VL [VL [VI 1; VI 2]; VL [VI 3; VI 4]].
+Definition a223 : val := VL [VL [VL [VI 1; VI 2; VI 3]; VL [VI 4; VI 5; VI 6]]; VL [VL [VI 7; VI 8; VI 9]; VL [VI 10; VI 11; VI 12]]].
+
+Lemma refuted_witnesses :
+  refutes_m "homogenise" "eval_monad_first" (VL [VI 1; r25]) &&
+  refutes_d "broadcast" "eval_dyad_add" (VL [VI 1; VI 2]) m22 &&
+  refutes_d "no-object-loop" "eval_dyad_minimum" (VL [VI 1; VL [VI 2; VI 3]]) (VL [VI 1; VL [VI 2; VI 3]]) &&
+  refutes_d "take-matrix" "eval_dyad_take" (VI 3) m22 &&
+  refutes_m "first-of-string" "eval_monad_first" (VS [97; 98; 99]) &&
+  refutes_m "floor-overflow" "eval_monad_floor" (VR (real_of_bits 6103021453049119613)) &&
+  refutes_d "match-tolerance" "eval_dyad_match" (VI 100000) (VI 100001) &&
+  refutes_d "reshape-char-0" "eval_dyad_reshape" (VI 0) (VC 97) &&
+  refutes_d "reshape-nested" "eval_dyad_reshape" (VL [VI 2]) (VL [VL [VI 1; VI 2; VI 3]]) &&
+  refutes_d "find-nested" "eval_dyad_find" (VL [VL [VI 1; VI 2]; VL [VI 1; VI 1]]) (VI 1) &&
+  refutes_d "find-symbol" "eval_dyad_find" (VL [VY [97]; VY [98]]) (VY [97]) &&
+  refutes_d "join-ragged" "eval_dyad_join" m22 a223 &&
+  refutes_m "char-of-empty" "eval_monad_char" (VL []) &&
+  refutes_m "expand-empty" "eval_monad_expand_where" (VL []) = true.
+Proof. vm_compute. reflexivity. Qed.
+
+(* the behaviour before the fix: commits, as the model computes it when the regenerated flag is false *)
+Lemma rotate_without_axis0 :
+  res_eqb (m_rotate_gen false (VI 1) (VL [VL [VI 1; VI 2]; VL [VI 4; VI 5]; VL [VI 5; VI 6]]))
+          (s_dyad "eval_dyad_rotate" (VI 1) (VL [VL [VI 1; VI 2]; VL [VI 4; VI 5]; VL [VI 5; VI 6]])) = false.
+Proof. vm_compute. reflexivity. Qed.
+Lemma reverse_without_guard : m_reverse_gen false (VI 1) = Err /\ s_monad "eval_monad_reverse" (VI 1) = Ok (VI 1).
+Proof. split; reflexivity. Qed.
